@@ -320,6 +320,49 @@ theorem lastIndexNotSpaceF_spec (n : Nat) (rs : Bytes) (hn : rs.length ≤ n) :
           refine ⟨((b :: t).drop size).reverse, ((b :: t).take size).reverse, [], by rw [hsplit]; simp,
             by rw [List.length_reverse]; exact hi, hwne, by rw [hw, hwl], by rw [hw]; exact hsp', wsOnly_nil⟩
 
+/-- the last step of `TrimRightFunc`: from the offset `i = |hd|` of the last rune `w` that is not
+    white space to the end of that rune, whatever white space follows -/
+theorem trimRight_take (s hd w tl : Bytes) (e1 : s = hd ++ w ++ tl) (e3 : w ≠ [])
+    (e4 : (decodeRune w).2 = w.length) (e6 : wsOnly tl = true) :
+    (if s.getD hd.length 0 ≥ 0x80 then s.take (hd.length + (decodeRune (s.drop hd.length)).2)
+      else s.take (hd.length + 1)) = hd ++ w := by
+  cases w with
+  | nil => exact absurd rfl e3
+  | cons c w' =>
+    have hget : s.getD hd.length 0 = c := by
+      rw [e1]
+      simp [List.getD]
+    have hdrop : s.drop hd.length = (c :: w') ++ tl := by
+      rw [e1, List.append_assoc, List.drop_left]
+    have hkeep : ∀ k, k = (c :: w').length → s.take (hd.length + k) = hd ++ (c :: w') := by
+      intro k hk
+      rw [e1, hk, List.append_assoc, List.take_append, List.take_of_length_le (by omega)]
+      simp
+    simp only [hget]
+    by_cases hc : c ≥ 0x80
+    · simp only [hc, if_true, hdrop]
+      have hnl : ¬ c < 0x80 := by simpa [UInt8.not_lt] using hc
+      have hwid : (decodeRune ((c :: w') ++ tl)).2 = (c :: w').length := by
+        by_cases h2w : 2 ≤ (c :: w').length
+        · rw [decodeRune_append_of_wide _ _ (by rw [e4]; exact h2w), e4]
+        · have hw0 : w' = [] := by
+            cases w' with
+            | nil => rfl
+            | cons _ _ => simp at h2w
+          subst hw0
+          exact decodeRune_high_before_ws c tl hnl e6
+      exact hkeep _ hwid
+    · simp only [hc, if_false]
+      have hlt : c < 0x80 := by simpa [UInt8.not_le] using hc
+      have hw0 : w' = [] := by
+        have : (decodeRune (c :: w')).2 = 1 := by simp [decodeRune, hlt]
+        rw [this] at e4
+        cases w' with
+        | nil => rfl
+        | cons _ _ => simp at e4
+      subst hw0
+      exact hkeep 1 rfl
+
 /-- **`TrimRightFunc` cuts off white space.**  The string is what `trimRightFunc` keeps followed
     by a run of white-space runes; what it keeps is empty or ends with a rune — read from
     exactly its own bytes — that is not white space. -/
@@ -337,44 +380,33 @@ theorem trimRightFunc_spec (s : Bytes) :
   | some i =>
     obtain ⟨hd, w, tl, e1, e2, e3, e4, e5, e6⟩ := h2 i h
     rw [List.reverse_reverse] at e1
-    cases w with
-    | nil => exact absurd rfl e3
-    | cons c w' =>
-      have hget : s.getD i 0 = c := by
-        rw [e1, ← e2]
-        simp [List.getD, List.getElem?_append_right]
-      have hdrop : s.drop i = (c :: w') ++ tl := by
-        rw [e1, ← e2, List.append_assoc, List.drop_left]
-      have hkeep : ∀ k, k = (c :: w').length → s.take (i + k) = hd ++ (c :: w') := by
-        intro k hk
-        rw [e1, ← e2, hk, List.append_assoc, List.take_append, List.take_of_length_le (by omega)]
-        simp
-      simp only [hget]
-      by_cases hc : c ≥ 0x80
-      · simp only [hc, if_true, hdrop]
-        have hnl : ¬ c < 0x80 := by simpa [UInt8.not_lt] using hc
-        have hwid : (decodeRune ((c :: w') ++ tl)).2 = (c :: w').length := by
-          by_cases h2w : 2 ≤ (c :: w').length
-          · rw [decodeRune_append_of_wide _ _ (by rw [e4]; exact h2w), e4]
-          · have hw0 : w' = [] := by
-              cases w' with
-              | nil => rfl
-              | cons _ _ => simp at h2w
-            subst hw0
-            exact decodeRune_high_before_ws c tl hnl e6
-        rw [hkeep _ hwid]
-        exact ⟨tl, by rw [e1], e6, Or.inr ⟨hd, c :: w', rfl, e3, e4, e5⟩⟩
-      · simp only [hc, if_false]
-        have hlt : c < 0x80 := by simpa [UInt8.not_le] using hc
-        have hw0 : w' = [] := by
-          have : (decodeRune (c :: w')).2 = 1 := by simp [decodeRune, hlt]
-          rw [this] at e4
-          cases w' with
-          | nil => rfl
-          | cons _ _ => simp at e4
-        subst hw0
-        rw [hkeep 1 rfl]
-        exact ⟨tl, by rw [e1], e6, Or.inr ⟨hd, [c], rfl, e3, e4, e5⟩⟩
+    simp only []
+    rw [← e2, trimRight_take s hd w tl e1 e3 e4 e6]
+    exact ⟨tl, e1, e6, Or.inr ⟨hd, w, rfl, e3, e4, e5⟩⟩
+
+/-- an ASCII white-space byte at the end is cut off with the rest -/
+theorem trimRightFunc_snoc_space (s : Bytes) (d : UInt8) (hd : d < 0x80) (hsp : isSpaceRune d.toNat = true) :
+    trimRightFunc (s ++ [d]) = trimRightFunc s := by
+  obtain ⟨h1, h2⟩ := lastIndexNotSpaceF_spec s.length s.reverse (by simp)
+  have hidx : lastIndexNotSpaceF (s ++ [d]).length (s ++ [d]).reverse = lastIndexNotSpaceF s.length s.reverse := by
+    have hrev : (s ++ [d]).reverse = d :: s.reverse := by simp
+    have hl : (s ++ [d]).length = s.length + 1 := by simp
+    rw [hrev, hl]
+    simp only [lastIndexNotSpaceF, decodeLastRuneRev, hd, if_true, hsp, Bool.not_true, Bool.false_eq_true, if_false,
+      List.drop_succ_cons, List.drop_zero]
+  unfold trimRightFunc
+  rw [hidx]
+  cases h : lastIndexNotSpaceF s.length s.reverse with
+  | none => simp
+  | some i =>
+    obtain ⟨hdd, w, tl, e1, e2, e3, e4, e5, e6⟩ := h2 i h
+    rw [List.reverse_reverse] at e1
+    have hwsd : wsOnly [d] = true := by
+      rw [wsOnly_cons]
+      simp [decodeRune, hd, hsp, wsOnly_nil]
+    simp only []
+    rw [← e2, trimRight_take s hdd w tl e1 e3 e4 e6,
+      trimRight_take (s ++ [d]) hdd w (tl ++ [d]) (by rw [e1]; simp) e3 e4 (wsOnly_append _ _ e6 hwsd)]
 
 /-! ### the blank behind an account name -/
 
